@@ -801,6 +801,7 @@ class X12ContextReader(object):
         cur_tree = None
         cur_data_node = None
         icvn = fic = vriic = None
+        cur_map = None
         for seg in self.src:
             #find node
             orig_node = self.x12_map_node
@@ -832,7 +833,7 @@ class X12ContextReader(object):
                     fic = seg.get_value('GS01')
                     vriic = seg.get_value('GS08')
                     map_file_new = self.map_index_if.get_filename(icvn, vriic, fic)
-                    if self.map_file != map_file_new:
+                    if self.map_file != map_file_new or cur_map is None:
                         self.map_file = map_file_new
                         if self.map_file is None:
                             raise pyx12.errors.EngineError("Map not found.  icvn=%s, fic=%s, vriic=%s" %
